@@ -21,13 +21,32 @@ func GenPressureScript(t *rapid.T, prop, profile string, o GenOpts) *Script {
 		s.World.Nodes = append(s.World.Nodes, NodeSpec{Name: fmt.Sprintf("n%d", i), CPUm: 64000, MemMi: 262144, Pods: 110, GPUs: g})
 		free[fmt.Sprintf("n%d", i)] = g
 	}
-	nq := rapid.IntRange(1, 2).Draw(t, "pqueues")
 	var leaves []string
-	for i := 0; i < nq; i++ {
-		q := QueueSpec{Name: fmt.Sprintf("q%d", i), GPU: QRes{Quota: pick(t, "pquota", -1.0, -1.0, 2.0, 0.0), Limit: -1, Weight: 1},
-			CPU: QRes{Quota: -1, Limit: -1, Weight: 1}, Mem: QRes{Quota: -1, Limit: -1, Weight: 1}}
-		s.World.Queues = append(s.World.Queues, q)
-		leaves = append(leaves, q.Name)
+	if o.Hierarchy >= 2 && chance(t, "pdepartments", 50) {
+		// two departments with GPU quotas, 1-2 leaf queues each: reclaim across departments is judged at department level
+		var total int64
+		for _, v := range free {
+			total += v
+		}
+		for d := 0; d < 2; d++ {
+			dq := QueueSpec{Name: fmt.Sprintf("d%d", d), GPU: QRes{Quota: float64(rapid.IntRange(0, int(total)).Draw(t, "pdquota")), Limit: -1, Weight: pick(t, "pdw", 0.0, 1.0, 2.0)},
+				CPU: QRes{Quota: -1, Limit: -1, Weight: 1}, Mem: QRes{Quota: -1, Limit: -1, Weight: 1}}
+			s.World.Queues = append(s.World.Queues, dq)
+			for l := 0; l < rapid.IntRange(1, 2).Draw(t, "pdleaves"); l++ {
+				q := QueueSpec{Name: fmt.Sprintf("d%dq%d", d, l), Parent: dq.Name, GPU: QRes{Quota: float64(rapid.IntRange(0, int(total)/2).Draw(t, "plquota")), Limit: -1, Weight: pick(t, "plw", 0.0, 1.0, 2.0)},
+					CPU: QRes{Quota: -1, Limit: -1, Weight: 1}, Mem: QRes{Quota: -1, Limit: -1, Weight: 1}}
+				s.World.Queues = append(s.World.Queues, q)
+				leaves = append(leaves, q.Name)
+			}
+		}
+	} else {
+		nq := rapid.IntRange(1, 2).Draw(t, "pqueues")
+		for i := 0; i < nq; i++ {
+			q := QueueSpec{Name: fmt.Sprintf("q%d", i), GPU: QRes{Quota: pick(t, "pquota", -1.0, -1.0, 2.0, 0.0), Limit: -1, Weight: 1},
+				CPU: QRes{Quota: -1, Limit: -1, Weight: 1}, Mem: QRes{Quota: -1, Limit: -1, Weight: 1}}
+			s.World.Queues = append(s.World.Queues, q)
+			leaves = append(leaves, q.Name)
+		}
 	}
 	s.World.PriorityClasses = []PriorityClassSpec{{"train", 50}, {"build", 100}, {"inference", 125}, {"low", 25}}
 	place := func(p *PodSpec) bool {
@@ -144,5 +163,57 @@ func GenPressureScript(t *rapid.T, prop, profile string, o GenOpts) *Script {
 	}
 	s.Ops = genOps(t, o, &s.World)
 	s.Faults, s.BindFail = genFaults(t, o, &s.World)
+	return s
+}
+
+// GenDepartmentReclaimScript (C07): a full cluster; a victim department whose two leaf queues run
+// single-GPU preemptible workloads a little above the department's deserved quota; a reclaimer
+// department with room in its quota and a pending gang that needs more than the victim department's
+// excess. Whatever is taken must stop at the department's quota, across its leaf queues.
+func GenDepartmentReclaimScript(t *rapid.T, prop string, o GenOpts) *Script {
+	s := &Script{Prop: prop, Profile: "reclaim-departments"}
+	s.MapSeed = rapid.Uint64Range(1, 1<<62).Draw(t, "mapseed")
+	s.Config = genConfig(t, o)
+	nn := rapid.IntRange(1, 2).Draw(t, "dnodes")
+	g := int64(pick(t, "dgpus", 4, 6, 8))
+	total := int(g) * nn
+	for i := 0; i < nn; i++ {
+		s.World.Nodes = append(s.World.Nodes, NodeSpec{Name: fmt.Sprintf("n%d", i), CPUm: 64000, MemMi: 262144, Pods: 110, GPUs: g})
+	}
+	unl := QRes{Quota: -1, Limit: -1, Weight: 1}
+	victims := rapid.IntRange(3, total).Draw(t, "dvictims") // GPUs held by the victim department
+	excess := rapid.IntRange(0, min(3, victims)).Draw(t, "dexcess")
+	own := total - victims // GPUs held by the reclaimer's department
+	need := rapid.IntRange(1, min(4, victims)).Draw(t, "dneed")
+	s.World.Queues = []QueueSpec{
+		{Name: "dv", GPU: QRes{Quota: float64(victims - excess), Limit: -1, Weight: pick(t, "dvw", 0.0, 1.0)}, CPU: unl, Mem: unl},
+		{Name: "dvq0", Parent: "dv", GPU: QRes{Quota: float64(rapid.IntRange(0, victims).Draw(t, "dvq0")), Limit: -1, Weight: pick(t, "dvq0w", 0.0, 1.0)}, CPU: unl, Mem: unl},
+		{Name: "dvq1", Parent: "dv", GPU: QRes{Quota: float64(rapid.IntRange(0, victims).Draw(t, "dvq1")), Limit: -1, Weight: pick(t, "dvq1w", 0.0, 1.0)}, CPU: unl, Mem: unl},
+		{Name: "dr", GPU: QRes{Quota: float64(own + rapid.IntRange(0, need+1).Draw(t, "drroom")), Limit: -1, Weight: pick(t, "drw", 0.0, 1.0)}, CPU: unl, Mem: unl},
+		{Name: "drq0", Parent: "dr", GPU: QRes{Quota: float64(rapid.IntRange(0, total).Draw(t, "drq0")), Limit: -1, Weight: 1}, CPU: unl, Mem: unl},
+	}
+	s.World.PriorityClasses = []PriorityClassSpec{{"train", 50}, {"build", 100}, {"inference", 125}, {"low", 25}}
+	k := 0
+	slot := func() string { n := fmt.Sprintf("n%d", k/int(g)); k++; return n }
+	for i := 0; i < victims; i++ {
+		w := WorkloadSpec{Name: fmt.Sprintf("v%d", i), Queue: pick(t, "vq", "dvq0", "dvq1"), MinMember: 1, PriorityClass: pick(t, "vpc", "train", "low"), AgeSec: int64(rapid.IntRange(1, 5000).Draw(t, "vage"))}
+		ago := int64(rapid.IntRange(100, 10000).Draw(t, "vls"))
+		w.LastStartAgo = &ago
+		w.Pods = []PodSpec{{Name: fmt.Sprintf("v%d-p0", i), CPUm: 100, MemMi: 128, GPUs: 1, State: "running", Node: slot()}}
+		s.World.Workloads = append(s.World.Workloads, w)
+	}
+	for i := 0; i < own; i++ {
+		w := WorkloadSpec{Name: fmt.Sprintf("o%d", i), Queue: "drq0", MinMember: 1, PriorityClass: pick(t, "opc", "train", "low", "build"), AgeSec: int64(rapid.IntRange(1, 5000).Draw(t, "oage"))}
+		ago := int64(rapid.IntRange(100, 10000).Draw(t, "ols"))
+		w.LastStartAgo = &ago
+		w.Pods = []PodSpec{{Name: fmt.Sprintf("o%d-p0", i), CPUm: 100, MemMi: 128, GPUs: 1, State: "running", Node: slot()}}
+		s.World.Workloads = append(s.World.Workloads, w)
+	}
+	rw := WorkloadSpec{Name: "r0", Queue: "drq0", MinMember: int32(need), PriorityClass: pick(t, "rpc", "train", "build", "low"), AgeSec: int64(rapid.IntRange(1, 5000).Draw(t, "rage"))}
+	for j := 0; j < need; j++ {
+		rw.Pods = append(rw.Pods, PodSpec{Name: fmt.Sprintf("r0-p%d", j), CPUm: 100, MemMi: 128, GPUs: 1, State: "pending"})
+	}
+	s.World.Workloads = append(s.World.Workloads, rw)
+	s.Ops = genOps(t, o, &s.World)
 	return s
 }
